@@ -112,6 +112,7 @@ type CertSpec struct {
 	UnknownEKU bool // the extended key usage extension lists one private OID only
 	KeyUsage   int  // nonzero: the keyUsage bits (stdx509.KeyUsage) instead of the default for the certificate kind
 	EmailEKU   bool // a CA certificate whose extended key usage lists emailProtection only
+	UTF8Subject bool // the subject's common name is encoded as UTF8String although it is printable ASCII (what OpenSSL emits)
 }
 
 type Cert struct {
@@ -171,6 +172,13 @@ func MakeCert(sp CertSpec) *Cert {
 			t.ExtKeyUsage = nil
 			t.UnknownExtKeyUsage = []asn1.ObjectIdentifier{{1, 3, 6, 1, 4, 1, 99999, 7}}
 		}
+	}
+	if sp.UTF8Subject {
+		cn := append([]byte{0x0c, byte(len(sp.Name))}, sp.Name...)
+		atv := append([]byte{0x06, 0x03, 0x55, 0x04, 0x03}, cn...)
+		atv = append([]byte{0x30, byte(len(atv))}, atv...)
+		set := append([]byte{0x31, byte(len(atv))}, atv...)
+		t.RawSubject = append([]byte{0x30, byte(len(set))}, set...)
 	}
 	if sp.KeyUsage != 0 {
 		t.KeyUsage = stdx509.KeyUsage(sp.KeyUsage)
